@@ -18,27 +18,30 @@ from vlib import build
 from vlib import model as M
 from vlib.gen import chance, pick
 from vlib.runner import HarnessError
-from vlib.sched import Deadlock, Scheduler, YieldingDict, YieldingLock
+from vlib.sched import LOCK_TYPES, Deadlock, Scheduler, ThreadingShim, YieldingDict, YieldingLock
 
 ID = "C20"
 TITLE = "Concurrent first use from several threads is safe"
 RULE = ("Schedules: Hypothesis draws a type shape (plain nested, self-recursive, mutually recursive, generic specialisations, "
         "recursive with conversions; fresh classes for every case), 2-4 threads each performing the FIRST deserialize / serialize / "
-        "deserialization_schema / serialization_schema of one of the shape's types, and a list of 0-60 scheduling choices.  The "
+        "deserialization_schema / serialization_schema of one of the shape's types, and a schedule: either 0-60 per-yield-point choices or (70%) up to 8 segments [thread, n] that give "
+        "one thread the baton for n yield points, the tail being non-preemptive (few, deep preemptions).  The "
         "threads run under a deterministic baton scheduler (vlib/sched.py); yield points are injected from the harness on every "
         "read / write of the recursion-analysis cache (apischema.recursion.recursion_cache), at the entry / exit of the cached "
-        "method factories and is_recursive, at the lazy resolution of RecMethod, and on the recursion lock if one exists.  Oracle: "
+        "method factories and is_recursive, at the lazy resolution of RecMethod, and on every lock of the library: module-level locks, registries (dicts) of locks and - through a "
+        "stand-in for the `threading` module inside apischema - locks created while the schedule runs are all yielding locks, so no "
+        "thread blocks on a real lock while holding the baton; a lock never released after 20000 turns of the others is a deadlock.  Oracle: "
         "the per-thread results (canonical value or exception type) of the concurrent phase, of a second sequential pass on the now "
         "warm caches, and of a cold sequential pass after cache.reset() are all equal.  Thorough adds a stress mode with real "
         "preemption (switch interval 1e-6, 8 threads, barrier).  Non-trivial: the schedule has >= 1 context switch between two "
         "threads that both touched the recursion cache.  Distinct = hash(shape, thread ops, effective schedule).")
 ASSUMPTIONS = ["the deterministic mode only interleaves at the injected yield points",
                "stress mode failures are genuine but not exactly replayable: their replay file re-runs the stress case"]
-BUDGET = {"quick": 110, "thorough": 4000}
+BUDGET = {"quick": 250, "thorough": 4000}
 SHARDS = {"quick": 8, "thorough": 16}
-MIN_NONTRIVIAL = {"quick": 200, "thorough": 8000}
+MIN_NONTRIVIAL = {"quick": 400, "thorough": 8000}
 TECHNIQUE = "schedule fuzzing: Hypothesis-generated interleavings replayed by a deterministic baton scheduler with injected yield points; oracle concurrent = warm-after = cold sequential"
-LEVEL_TEXT = ("Exploration: ~900 (quick) / ~64k (thorough) generated schedules over 5 type shapes under a harness-owned scheduler, plus a "
+LEVEL_TEXT = ("Exploration: ~2000 (quick) / ~64k (thorough) generated schedules over 5 type shapes under a harness-owned scheduler, plus a "
               "real-preemption stress phase in the thorough tier; each schedule's results are compared with warm and cold sequential executions.")
 LEVEL_NOTE = "Trusted: vlib/sched.py; interleavings are explored at the injected yield points only (dict operations of the recursion cache, factory entry/exit, lazy method resolution)."
 
@@ -138,7 +141,10 @@ def strategy_(draw, tier):
     if chance(draw, 0.5):  # same type from every thread: the very first use is shared
         for t in threads:
             t["type"] = threads[0]["type"]
-    choices = draw(st.lists(st.integers(0, 3), max_size=60))
+    if chance(draw, 0.3):  # fine-grained: a decision at every yield point
+        choices = draw(st.lists(st.integers(0, 3), max_size=60))
+    else:  # coarse: a few preemptions, each thread keeping the baton for a run of yield points (then run to completion)
+        choices = draw(st.lists(st.tuples(st.integers(0, 3), st.one_of(st.integers(1, 12), st.integers(1, 80))).map(list), max_size=8))
     return {"shape": shape, "threads": threads, "choices": choices}
 
 
@@ -158,6 +164,7 @@ class Instrument:
     def __init__(self, sched: Scheduler):
         self.sched = sched
         self.saved = []
+        self.saved_items = []
         self.caches = {}
 
     def _set(self, obj, name, value):
@@ -208,14 +215,37 @@ class Instrument:
                 return _orig(self_, *a, **k)
 
             self._set(cls, name, patched)
-        for lock_name in ("_recursion_lock", "_lock", "recursion_lock"):
-            if hasattr(R, lock_name):
-                self._set(R, lock_name, YieldingLock(getattr(R, lock_name), sched, "rlock"))
+        # every lock of the library becomes a yielding lock: the module-level ones that exist now and,
+        # through a stand-in for the `threading` module, the ones created while the schedule runs
+        shim = ThreadingShim(sched)
+        for mname, m in list(sys.modules.items()):
+            if m is None or not (mname == "apischema" or mname.startswith("apischema.")):
+                continue
+            for name, val in list(vars(m).items()):
+                if val is threading:
+                    self._set(m, name, shim)
+                elif val is threading.Lock:
+                    self._set(m, name, shim.Lock)
+                elif val is threading.RLock:
+                    self._set(m, name, shim.RLock)
+                elif isinstance(val, LOCK_TYPES):
+                    self._set(m, name, YieldingLock(val, sched, "lock:" + name))
+                elif type(val) is dict and any(isinstance(v, (YieldingLock,) + LOCK_TYPES) for v in val.values()):
+                    # a registry of locks filled before the schedule started (or by an earlier case)
+                    self.saved_items.append((val, dict(val)))
+                    for k, v in list(val.items()):
+                        if isinstance(v, YieldingLock):
+                            v = v.real
+                        if isinstance(v, LOCK_TYPES):
+                            val[k] = YieldingLock(v, sched, "lock:%s[]" % name)
         return self
 
     def __exit__(self, *exc):
         for obj, name, value in reversed(self.saved):
             setattr(obj, name, value)
+        for d, content in self.saved_items:
+            for k, v in list(d.items()):  # entries added during the schedule keep their real lock only
+                d[k] = content.get(k, v.real if isinstance(v, YieldingLock) else v)
 
 
 def thread_fn(mod, t):
